@@ -283,7 +283,7 @@ PROPS = {
                         "generated filters always name kinds or authors so that barrier events match no generated subscription"],
     },
     "C08": {
-        "lean_modules": ["MocProps.C08"], "theorem_files": ["MocProps/C08.lean"],
+        "lean_modules": ["MocProps.C08", "MocProps.C08Stream"], "theorem_files": ["MocProps/C08.lean", "MocProps/C08Stream.lean"],
         "gen_groups": ["Merge", "Matcher"], "harness_prop": "merge", "driver_prop": "merge",
         "monitors": ["eose", "stream"],
         "n_quick": 2500, "n_thorough": 25000, "thorough_seeds": 3,
@@ -294,9 +294,10 @@ PROPS = {
                       "receives at most one EOSE per REQ and none for a subscription without state — never requested, closed, or past its EOSE (eose_at_most_once, no_state_no_eose, "
                       "closed_no_eose). A child's EVENT yields nothing or exactly that message (event_out_shape); after the EOSE everything is forwarded unchanged with the state untouched "
                       "(event_after_eose); before it a forwarded event comes from a child that has not sent EOSE, is not newer than the last event looked at, has an id not seen at its "
-                      "timestamp, found the limit not exhausted and matches the REQ's filters per NIP-01 (event_before_eose, via C02's limitMatchAll_verdict). Partial: the trace-level corollaries "
-                      "'pairwise distinct', 'non-increasing' and 'at most limit' follow from these per-step facts but are runtime-validated (monitor classes pre-*), not yet proved as one "
-                      "theorem; the goroutine plumbing (1-slot state channels, broadcast) is runtime-validated with forced step orders.",
+                      "timestamp, found the limit not exhausted and matches the REQ's filters per NIP-01 (event_before_eose, via C02's limitMatchAll_verdict). Trace level (C08Stream.lean): from a REQ on, over "
+                      "EVERY trace that does not re-issue the subscription id, the events forwarded while its state exists are in non-increasing created_at order, pairwise distinct, all match "
+                      "the filters, and for a single filter with limit n number at most n (pre_eose_stream_from_req, pre_eose_stream; invariant SInv carried by subStep_inv, J_child, J_client). "
+                      "Runtime-validated: the goroutine plumbing (1-slot state channels, broadcast), with forced step orders on the real handler.",
         "level_note": "Trusted: Lean kernel + standard axioms; go2lean; harness/driver; the atomicity of handleRecvMsg/handleSendMsg (state passed through 1-slot channels) is read off the code, and "
                       "validated by forcing total orders on the real handler.",
         "assumptions": ["a subscription id is not re-issued before its EOSE (as in the property's quantifier); re-issued ones are not judged", "child indices are < number of children"],
